@@ -282,21 +282,33 @@ def _rt_concrete(n, mask, vals, seq=None):
     return fails
 
 
+_ODD = [None, 0, "", (), 0.5, "a", -1, b"x", frozenset(), 7, "None", (None,)]
+
+
+def _family(kind, n):
+    return {"int": [10 * i + 3 for i in range(n)], "str": [f"f{n - i}" for i in range(n)], "tuple": [(i, "x") for i in range(n)],
+            "odd": _ODD[:n], "odd-reversed": _ODD[:n][::-1]}[kind]
+
+
 def roundtrip_concrete_item(item):
     """Concrete companion of the symbolic round trip (plain enumeration, reported as such): element kinds the affine encoding cannot
-    carry (strings, tuples) and code paths that hash their arguments."""
+    carry (strings, tuples, None, falsy and mixed-type values) and code paths that hash their arguments."""
     n = item["n"]
     out = dict(obligations=0, discharged=0, violations=[], item=item, paths=1, solver_queries=0, solver_s=0.0, nontrivial=n >= 2)
-    for kind, seq in (("int", [10 * i + 3 for i in range(n)]), ("str", [f"f{n - i}" for i in range(n)]), ("tuple", [(i, "x") for i in range(n)])):
+    for kind in ("int", "str", "tuple", "odd", "odd-reversed"):
+        seq = _family(kind, n)
         for mask in range(1 << n):
             out["obligations"] += 3
             cf = _rt_concrete(n, mask, None, seq)
             if cf:
                 out["violations"].append({"kind": "roundtrip", "text": f"concrete {kind} elements, n={n} mask={bin(mask)}: {cf}",
                                           "signature": {"kind": "roundtrip-concrete", "elements": kind, "n": n, "mask": mask},
-                                          "data": {"fn": "roundtrip-concrete", "n": n, "mask": mask, "seq": seq}, "confirmed": True})
+                                          "data": {"fn": "roundtrip-concrete", "n": n, "mask": mask, "family": kind}, "confirmed": True})
                 if len(out["violations"]) > 2:
                     return out
+            else:
+                out["discharged"] += 3
+    return out
             else:
                 out["discharged"] += 3
     return out
@@ -329,7 +341,7 @@ def replay(data):
     if data["fn"] == "complete":
         return SS.subseq_complete([0] * data["len"]) != (1 << data["len"]) - 1
     if data["fn"] == "roundtrip-concrete":
-        cf = _rt_concrete(data["n"], data["mask"], None, [tuple(x) if isinstance(x, list) else x for x in data["seq"]])
+        cf = _rt_concrete(data["n"], data["mask"], None, _family(data["family"], data["n"]))
     else:
         cf = _rt_concrete(data["n"], data["mask"], data["values"])
     for t in cf:
@@ -359,7 +371,7 @@ def main(argv=None):
                                          f"(one equivalence query per N; bit-vector width N+6, loop unrolled N times, unwinding assertion proven)",
                   "subseq_complete": "sequence length 0..40 as a symbolic bit-vector",
                   "round trips": f"sequence length 0..{nmax}, elements = symbolic pairwise-distinct integers, every mask; each subseq_from_mask result is edited by the "
-                                 f"caller and the call repeated (the result must not be shared); concrete companion with int/str/tuple elements up to length {nmax + 1}"}
+                                 f"caller and the call repeated (the result must not be shared); concrete companion with int/str/tuple elements and with falsy / None / mixed-type distinct elements up to length {nmax + 1}"}
     rep.assumptions = ["Python ints are modelled by bit-vectors of width N+6; the side query 'result in [-1,N]' and the loop bound N exclude wrap-around",
                        "engine/py2smt.py translation (validated on the repository's test vectors and 200 seeded inputs per N against the real function)"]
     rep.outside = ["masks of more than max(N) bits", "child == 0 (outside the property's quantifier)", "sequences with repeated elements"]
